@@ -109,6 +109,8 @@ for cls, mod in (('Socket', 'socket'), ('AsyncSocket', 'async_socket')):
     c.ensures('already-closing-silent', 'implies(old(self.closing), ' + FLAGS_SAME +
               ' and events == old(events) and hresults == old(hresults))')
     c.ensures('events-only-grow', 'grows(events, old(events))')
+    c.ensures('spawned-only-grow', 'grows(spawned, old(spawned))')
+    c.ensures('spawns-nothing', 'spawned == old(spawned)')
     c.ensures('dead-no-message-enqueued',
               'appended_at_most_close(self.queue.accepted, old(self.queue.accepted), None)')
     c.ensures('queue-wf', 'self.queue.unf >= len(self.queue.items)')
@@ -141,6 +143,8 @@ for cls, mod in (('Socket', 'socket'), ('AsyncSocket', 'async_socket')):
     c.ensures('already-closing-silent', 'implies(old(self.closing), ' + FLAGS_SAME +
               ' and events == old(events) and hresults == old(hresults))')
     c.ensures('events-only-grow', 'grows(events, old(events))')
+    c.ensures('spawned-only-grow', 'grows(spawned, old(spawned))')
+    c.ensures('spawns-nothing', 'spawned == old(spawned)')
     c.ensures('dead-peer-closed-first', 'implies(old(ping_expired(self, now)), self.closing and '
               'appended_at_most_close(self.queue.accepted, old(self.queue.accepted), pkt))',
               props=['C03', 'C07'])
@@ -176,6 +180,8 @@ for cls, mod in (('Socket', 'socket'), ('AsyncSocket', 'async_socket')):
     c.ensures('no-handler-no-event', "implies('disconnect' not in self.server.handlers, "
               "events == old(events) and hresults == old(hresults))", props=['C05'])
     c.ensures('events-only-grow', 'grows(events, old(events))')
+    c.ensures('spawned-only-grow', 'grows(spawned, old(spawned))')
+    c.ensures('spawns-nothing', 'spawned == old(spawned)')
     c.ensures('only-close-packet-enqueued',
               'appended_at_most_close(self.queue.accepted, old(self.queue.accepted), None)')
     c.ensures('abort-enqueues-nothing', 'implies(abort, self.queue.accepted == '
@@ -238,6 +244,7 @@ for cls, mod in (('Server', 'server'), ('AsyncServer', 'async_server')):
     c.ensures('at-most-two-results', 'len(hresults) <= len(old(hresults)) + 2 and '
               'len(hresults) >= len(old(hresults)) and '
               "implies(event != 'disconnect', len(hresults) <= len(old(hresults)) + 1)")
+    c.ensures('sync-spawns-nothing', "implies(not kwargs['run_async'], spawned == old(spawned))")
     c.ensures('sync-bad-signature-no-event', "implies(event in self.handlers and not "
               "kwargs['run_async'] and not handler_accepts(self.handlers[event], 2) and not "
               "(event == 'disconnect' and handler_accepts(self.handlers[event], 1)), "
@@ -272,6 +279,7 @@ for cls, mod in (('Socket', 'socket'), ('AsyncSocket', 'async_socket')):
     c.ensures('message-leaves-session-alone', "implies(pkt.packet_type == 4, " + FLAGS_SAME +
               " and self.queue.accepted == old(self.queue.accepted))", props=['C04', 'C05'])
     c.ensures('events-only-grow', 'grows(events, old(events))')
+    c.ensures('spawned-only-grow', 'grows(spawned, old(spawned))')
     c.ensures('message-payload-unchanged', 'pkt.data == old(pkt.data)', props=['C04'])
     c.ensures('upgrade-answered-with-noop', "implies(pkt.packet_type == 5 and "
               "not old(ping_expired(self, now)), len(self.queue.accepted) == "
@@ -337,6 +345,7 @@ for cls, mod in (('Socket', 'socket'), ('AsyncSocket', 'async_socket')):
               props=['C14'])
     c.ensures('at-most-16-packets', 'len(received) <= len(old(received)) + 16', props=['C14', 'C02'])
     c.ensures('events-only-grow', 'grows(events, old(events))')
+    c.ensures('spawned-only-grow', 'grows(spawned, old(spawned))')
     c.ensures('received-in-order', 'received[0:len(old(received))] == old(received)',
               props=['C04'])
     c.ensures('queue-wf', 'self.queue.unf >= len(self.queue.items)')
@@ -344,6 +353,7 @@ for cls, mod in (('Socket', 'socket'), ('AsyncSocket', 'async_socket')):
     c.loop(0, index='i', invariants=[
         ('each-once-in-order', 'received == old(received) + p.packets[0:i]'),
         ('events-only-grow', 'grows(events, old(events))'),
+    ('spawned-only-grow', 'grows(spawned, old(spawned))'),
         ('queue-wf', 'self.queue.unf >= len(self.queue.items)')],
         modifies=SOCK_MOD + ['ghost.received'], props=['C04'])
 
@@ -366,11 +376,13 @@ c.check_before('try: p = websocket_wait()', 'reads-only-while-open', 'not self.c
                props=['C05'])
 c.may_raise('Exception', 'True', label='driver-or-frame-error', ensures=[
     ('events-only-grow', 'grows(events, old(events))'),
+    ('spawned-only-grow', 'grows(spawned, old(spawned))'),
     ('queue-wf', 'self.queue.unf >= len(self.queue.items)'),
     ('failed-upgrade-consumes-nothing',
      'implies(not self.upgraded, self.queue.taken == old(self.queue.taken))')], props=['C06'])
 c.ensures('flag-reset', 'not self.upgrading', props=['C06'])
 c.ensures('events-only-grow', 'grows(events, old(events))')
+c.ensures('spawned-only-grow', 'grows(spawned, old(spawned))')
 c.ensures('queue-wf', 'self.queue.unf >= len(self.queue.items)')
 c.ensures('upgrade-only-via-probe', 'implies(old(self.connected) and self.upgraded, '
           'handshake_frames(ws_log, len(old(ws_log))))', props=['C06'])
@@ -387,6 +399,7 @@ c.modifies(*WS_MOD)
 c.loop(1, invariants=[
     ('steady-state', 'self.upgraded and not self.upgrading and self.connected'),
     ('events-only-grow', 'grows(events, old(events))'),
+    ('spawned-only-grow', 'grows(spawned, old(spawned))'),
     ('queue-wf', 'self.queue.unf >= len(self.queue.items)'),
     ('handshake-record', 'implies(old(self.connected), '
      'handshake_frames(ws_log, len(old(ws_log))))'),
@@ -412,11 +425,13 @@ c.raises('OSError', 'self.upgraded', label='already-upgraded-refused',
 c.may_raise('Exception', 'not self.upgraded', label='driver-or-frame-error', ensures=[
     ('flag-reset', 'not self.upgrading'),
     ('events-only-grow', 'grows(events, old(events))'),
+    ('spawned-only-grow', 'grows(spawned, old(spawned))'),
     ('queue-wf', 'self.queue.unf >= len(self.queue.items)'),
     ('failed-upgrade-consumes-nothing',
      'implies(not self.upgraded, self.queue.taken == old(self.queue.taken))')], props=['C06'])
 c.ensures('flag-reset', 'not self.upgrading', props=['C06'])
 c.ensures('events-only-grow', 'grows(events, old(events))')
+c.ensures('spawned-only-grow', 'grows(spawned, old(spawned))')
 c.ensures('queue-wf', 'self.queue.unf >= len(self.queue.items)')
 c.ensures('handled-returns-empty-list', "implies(self.server._async['websocket'] is not None, "
           "result == [])")
@@ -452,6 +467,7 @@ c.raises('OSError', UPG + ' and self.upgraded', label='already-upgraded-refused'
 c.may_raise('Exception', UPG + ' and not self.upgraded', label='driver-or-frame-error', ensures=[
     ('flag-reset', 'not self.upgrading'),
     ('events-only-grow', 'grows(events, old(events))'),
+    ('spawned-only-grow', 'grows(spawned, old(spawned))'),
     ('queue-wf', 'self.queue.unf >= len(self.queue.items)'),
     ('failed-upgrade-consumes-nothing',
      'implies(not self.upgraded, self.queue.taken == old(self.queue.taken))')], props=['C06'])
@@ -460,11 +476,13 @@ c.may_raise('QueueEmpty', 'not ' + UPG + ' and not (self.upgrading or self.upgra
     ('nothing-taken', 'self.queue.taken == old(self.queue.taken)'),
     ('queue-wf', 'self.queue.unf >= len(self.queue.items)'),
     ('events-only-grow', 'grows(events, old(events))'),
+    ('spawned-only-grow', 'grows(spawned, old(spawned))'),
     ('closed-with-transport-error', "self.closing and implies(not old(self.closing) and "
      "'disconnect' in self.server.handlers, one_disconnect(events, old(events), "
      "self.server.handlers['disconnect'], self.sid, 'transport error'))")],
             props=['C07', 'C05'])
 c.ensures('events-only-grow', 'grows(events, old(events))')
+c.ensures('spawned-only-grow', 'grows(spawned, old(spawned))')
 c.ensures('queue-wf', 'self.queue.unf >= len(self.queue.items)')
 c.ensures('result-packets-wf', 'implies(not (' + UPG + " and self.server._async['websocket'] "
           "is None), forall(lambda k: result[k] is not None and packet_ok(result[k]), 0, "
